@@ -228,7 +228,7 @@ theorem low_good (h : EuHuge) (c : LangCfg) (mb : Nat) (H : HugeHyps h c mb) (r 
 /-! ### the induction over the scale words -/
 
 theorem scaleGroup_toks (h : EuHuge) (s : EuScale) (g : Nat) :
-    (scaleGroup h s g).2 = (hugeMult h g).2 ++ [if g == 1 then s.singular else s.plural] := rfl
+    (scaleGroup h s g).2 = (hugeMult h g).2 ++ [scaleNoun h s g] := rfl
 
 /-- what follows a scale group is a good rest worth the remainder, and its scan stays at or below `top` -/
 theorem hugeRest_good (h : EuHuge) (c : LangCfg) (mb : Nat) (H : HugeHyps h c mb) :
@@ -272,17 +272,17 @@ theorem hugeRest_good (h : EuHuge) (c : LangCfg) (mb : Nat) (H : HugeHyps h c mb
       obtain ⟨mne, min, mval, meval⟩ := H.mult (n / s.value) (Nat.pos_of_ne_zero hz) hgl
       have htoks : (connPart cn).2 ++ (scaleGroup h s (n / s.value)).2 ++ (hugeRest h ss (n % s.value)).2 =
           ((connPart cn).2 ++ (hugeMult h (n / s.value)).2) ++
-            (if n / s.value == 1 then s.singular else s.plural) :: (hugeRest h ss (n % s.value)).2 := by
+            scaleNoun h s (n / s.value) :: (hugeRest h ss (n % s.value)).2 := by
         simp [scaleGroup_toks]
       rw [htoks] at hF ⊢
       have hlen : ((connPart cn).2 ++ (hugeMult h (n / s.value)).2 ++
-          (if n / s.value == 1 then s.singular else s.plural) :: (hugeRest h ss (n % s.value)).2).length =
+          scaleNoun h s (n / s.value) :: (hugeRest h ss (n % s.value)).2).length =
           ((connPart cn).2 ++ (hugeMult h (n / s.value)).2).length + (hugeRest h ss (n % s.value)).2.length + 1 := by
         simp; omega
       rw [hlen] at hF
       obtain ⟨e0, g0, he0⟩ := ih s.value (n % s.value) hss hmodlt (by rw [hmm]; exact hg) F (by omega)
-      have hw : lookup c.round (if n / s.value == 1 then s.singular else s.plural) = some s.value := by
-        split <;> assumption
+      have hw : lookup c.round (scaleNoun h s (n / s.value)) = some s.value := by
+        unfold scaleNoun; split <;> assumption
       have hblock : (connPart cn).2 ++ (hugeMult h (n / s.value)).2 ≠ [] := by
         intro e
         exact mne (List.append_eq_nil_iff.mp e).2
@@ -341,11 +341,11 @@ theorem hugeTop_good (h : EuHuge) (c : LangCfg) (mb : Nat) (H : HugeHyps h c mb)
       obtain ⟨mne, min, mval, _⟩ := H.mult (n / s.value) (Nat.pos_of_ne_zero hz) hgl
       have htoks : (scaleGroup h s (n / s.value)).2 ++ (hugeRest h ss (n % s.value)).2 =
           (hugeMult h (n / s.value)).2 ++
-            (if n / s.value == 1 then s.singular else s.plural) :: (hugeRest h ss (n % s.value)).2 := by
+            scaleNoun h s (n / s.value) :: (hugeRest h ss (n % s.value)).2 := by
         simp [scaleGroup_toks]
       rw [htoks] at hF ⊢
       have hlen : ((hugeMult h (n / s.value)).2 ++
-          (if n / s.value == 1 then s.singular else s.plural) :: (hugeRest h ss (n % s.value)).2).length =
+          scaleNoun h s (n / s.value) :: (hugeRest h ss (n % s.value)).2).length =
           (hugeMult h (n / s.value)).2.length + (hugeRest h ss (n % s.value)).2.length + 1 := by
         simp; omega
       have hmlen : 1 ≤ (hugeMult h (n / s.value)).2.length := by
@@ -354,8 +354,8 @@ theorem hugeTop_good (h : EuHuge) (c : LangCfg) (mb : Nat) (H : HugeHyps h c mb)
         | cons a as => simp
       obtain ⟨e0, g0, he0⟩ := hugeRest_good h c mb H ss s.value (n % s.value) hss hmodlt
         (by rw [hmm]; exact hg) F (by omega)
-      have hw : lookup c.round (if n / s.value == 1 then s.singular else s.plural) = some s.value := by
-        split <;> assumption
+      have hw : lookup c.round (scaleNoun h s (n / s.value)) = some s.value := by
+        unfold scaleNoun; split <;> assumption
       have hrec : getIntValueF true asciiDigits c F (hugeMult h (n / s.value)).2 = .ok (n / s.value) := by
         unfold getIntValue at mval
         exact getIntValueF_mono true asciiDigits c _ F _ _ mval (by omega)
